@@ -30,9 +30,20 @@ class Rec:
     def __setitem__(self, k, v): self.items_.append((k, v))
 
 
+def _new_top():
+    """a per-directory reader object built by the REAL constructor (so every attribute it sets exists); only the properties file read is replaced"""
+    cls = H._top_level_dir_properties
+    old = cls._read_properties
+    cls._read_properties = lambda self: {'digital_rf_version': '2.6.0'}
+    try:
+        t = cls('/w', 'ch', 'local', 1)
+    finally:
+        cls._read_properties = old
+    return t
+
+
 def _props(rows, n):
-    t = H._top_level_dir_properties.__new__(H._top_level_dir_properties)
-    t.top_level_dir = '/w'; t.channel_name = 'ch'; t.access_mode = 'local'; t.rdcc_nbytes = 1
+    t = _new_top()
     t._cachedFilename = '/w/ch/f'; t._cachedFile = None
     t.rf_data = FakeData(n); t.rf_data_len = n
     t.rf_index = FakeIndex(rows); t.rf_index_len = len(rows)
@@ -293,9 +304,7 @@ def _two_files(r1: List[Tuple[int, int]], n1: int, gap: int, r2: List[Tuple[int,
         def File(path, mode, **kw):
             if not present[path]: raise OSError('unable to open file (no such file)')
             opened.append(path); rows, n = files[path]; return _FakeH5File(rows, n)
-    t = H._top_level_dir_properties.__new__(H._top_level_dir_properties)
-    t.top_level_dir = '/w'; t.channel_name = 'ch'; t.access_mode = 'local'; t.rdcc_nbytes = 1
-    t._cachedFilename = None; t._cachedFile = None
+    t = _new_top()
     old = (H.h5py, H.os.access)
     H.h5py = FH5; H.os.access = lambda p, m: present[p]
     try:
@@ -325,9 +334,7 @@ def _cache_sequence(rows: List[Tuple[int, int]], n: int, s0: int, s1: int, probe
         def File(path, mode, **kw):
             if not present[path]: raise OSError('unable to open file (no such file)')
             r_, n_ = files[path]; return _FakeH5File(r_, n_)
-    t = H._top_level_dir_properties.__new__(H._top_level_dir_properties)
-    t.top_level_dir = '/w'; t.channel_name = 'ch'; t.access_mode = 'local'; t.rdcc_nbytes = 1
-    t._cachedFilename = None; t._cachedFile = None
+    t = _new_top()
     old = (H.h5py, H.os.access)
     H.h5py = FH5; H.os.access = lambda p, m: present[p]
     try:
@@ -337,6 +344,35 @@ def _cache_sequence(rows: List[Tuple[int, int]], n: int, s0: int, s1: int, probe
     finally:
         H.h5py, H.os.access = old
     return o3.items_ == o1.items_
+
+
+def _appearing_file(rows: List[Tuple[int, int]], n: int, s0: int, s1: int, probe_a: bool) -> bool:
+    """
+    pre: 1 <= len(rows) <= 2
+    pre: _wf(rows, n) and n <= 8
+    pre: 0 <= s0 <= s1
+    post: _
+    """
+    # monotone visibility for a long-lived reader: a file that did not exist yet when a pass probed it (the writer had not finalized it) is
+    # returned by the next pass once it exists -- nothing about the earlier probe is remembered
+    files = {'/w/ch/a': (rows, n), '/w/ch/b': (rows, n)}
+    present = {'/w/ch/a': True, '/w/ch/b': False}
+    class FH5:
+        @staticmethod
+        def File(path, mode, **kw):
+            if not present[path]: raise OSError('unable to open file (no such file)')
+            r_, n_ = files[path]; return _FakeH5File(r_, n_)
+    t = _new_top()
+    old = (H.h5py, H.os.access)
+    H.h5py = FH5; H.os.access = lambda p, m: present[p]
+    try:
+        o1 = Rec(); t._read(s0, s1, (['a', 'b'] if probe_a else ['b']), o1, len_only=True)
+        present['/w/ch/b'] = True
+        o2 = Rec(); t._read(s0, s1, ['b'], o2, len_only=True)
+    finally:
+        H.h5py, H.os.access = old
+    exp = [(k, ln) for (k, ln, r0) in _expected(rows, n, s0, s1)]
+    return o2.items_ == exp and o1.items_ == (exp if probe_a else [])
 
 
 def _split_invariance(rows: List[Tuple[int, int]], n: int, a: int, b: int, c: int) -> bool:
@@ -380,7 +416,7 @@ def _first_last(rows: List[Tuple[int, int]], n: int) -> bool:
     class FH5:
         @staticmethod
         def File(path, mode, **kw): return _FakeH5Bounds(rows, n)
-    t = H._top_level_dir_properties.__new__(H._top_level_dir_properties)
+    t = _new_top()
     old = H.h5py; H.h5py = FH5
     try:
         f, l = t._get_first_sample('x'), t._get_last_sample('x')
@@ -398,8 +434,7 @@ def _bounds_scan(v: List[int], bad: List[int]) -> bool:
     # files in listing order; bad[i]: 0 = readable, 1 = vanished (IOError), 2 = corrupt (KeyError).  Bounds come from the first / last
     # readable file; unreadable ones are skipped without raising.
     names = ['f%d' % i for i in range(len(v))]
-    t = H._top_level_dir_properties.__new__(H._top_level_dir_properties)
-    t.top_level_dir = '/w'; t.channel_name = 'ch'; t.access_mode = 'local'
+    t = _new_top()
     def get(path, off):
         i = names.index(path)
         if bad[i] == 1: raise IOError('gone')
